@@ -47,6 +47,8 @@ class State:
         self.labels: dict[str, "State"] = {}  # named snapshots (loop entry, segment start)
         self.events: list = []                # concrete per-path event log (call-outs, cut points)
         self.depth = 0
+        self.facts = set()
+        self._keep = []
 
     def clone(self) -> "State":
         s = State.__new__(State)
@@ -61,6 +63,8 @@ class State:
         s.labels = dict(self.labels)
         s.events = list(self.events)
         s.depth = self.depth
+        s.facts = set(self.facts)
+        s._keep = list(self._keep)
         return s
 
     # -- heap helpers
@@ -78,6 +82,15 @@ class State:
         if z3.is_true(c):
             return
         self.pc.append(c)
+
+    def fact(self, c):
+        """Assume an always-true statement (type invariant instance, definitional instance): unlike a branch
+        condition it may be exported from a scratch evaluation into the real state."""
+        if z3.is_true(c):
+            return
+        self.pc.append(c)
+        self.facts.add(c.get_id())
+        self._keep.append(c)
 
     def note(self, s: str):
         self.trace.append(s)
